@@ -65,13 +65,22 @@ func (filter *SearchableQueryFilter) FilterSearchableComparisons(statement sqlpa
 	}
 
 	var searchableExprs []SearchableExprItem
+	// the WHERE clause of a sub-query is found on its own and once more inside the clause that holds the sub-query:
+	// every comparison is reported (and later rewritten) once
+	seen := make(map[*sqlparser.ComparisonExpr]struct{})
 	for _, whereExpr := range whereExprs {
 		comparisonExprs, err := filter.filterColumnEqualComparisonExprs(whereExpr, tableExps)
 		if err != nil {
 			logrus.WithError(err).Debugln("Failed to extract comparison expressions")
 			return nil
 		}
-		searchableExprs = append(searchableExprs, comparisonExprs...)
+		for _, item := range comparisonExprs {
+			if _, ok := seen[item.Expr]; ok {
+				continue
+			}
+			seen[item.Expr] = struct{}{}
+			searchableExprs = append(searchableExprs, item)
+		}
 	}
 
 	return searchableExprs
